@@ -184,10 +184,14 @@ class Verdict:
         for i, (key, desc, replay) in enumerate(self.violations[:20]):
             path = os.path.join(REPLAYS, '%s-%s-%d.json' % (self.pid, re.sub(r'[^A-Za-z0-9_.-]+', '_', key)[:60], i))
             json.dump({'property': self.pid, 'key': key, 'description': desc, 'replay': replay}, open(path, 'w'), indent=1)
+            if key in seen and len(seen) > 0 and i >= 6:
+                continue
+            seen.add(key)
             print('VIOLATION property=%s replay=%s' % (self.pid, path))
             print('  %s: %s' % (key, desc[:300]))
-        if len(self.violations) > 20:
-            print('  ... %d more violations not written' % (len(self.violations) - 20))
+        if len(self.violations) > 6:
+            import collections as _c
+            print('  %d violations in total, by key: %s' % (len(self.violations), dict(_c.Counter(k for k, _, _ in self.violations))))
         return 1
 
 
